@@ -48,6 +48,9 @@ pub struct PartSpec {
     pub filename: Option<String>,
     pub mime: Option<String>,
     pub data: DataSpec,
+    /// `with_type` is called before `with_filename` (the order of the two calls does not matter)
+    #[serde(default)]
+    pub type_first: bool,
 }
 
 /// Parts in the order in which they are added to the builder.
@@ -188,6 +191,7 @@ fn text_part(name: &str, data: DataSpec) -> PartSpec {
         filename: None,
         mime: None,
         data,
+        type_first: false,
     }
 }
 
@@ -198,6 +202,7 @@ fn file_part(name: &str, filename: Option<&str>, mime: Option<&str>, data: DataS
         filename: filename.map(|s| s.to_string()),
         mime: mime.map(|s| s.to_string()),
         data,
+        type_first: false,
     }
 }
 
@@ -266,6 +271,19 @@ fn enumerate(tier: Tier) -> (Vec<Case>, BTreeMap<&'static str, u64>) {
                         false,
                     );
                 }
+            }
+        }
+    }
+
+    // F1b: file names whose extension suggests a media type x explicit types x both call orders:
+    // the explicit type (or none) is what is sent
+    for f in ["settings.json", "photo.PNG", "page.html", "notes.txt", "archive.tar.gz", "noext", "weird.zzzq"] {
+        for m in [None, Some("application/vnd.acme.settings"), Some("text/plain"), Some("application/octet-stream")] {
+            for type_first in [false, true] {
+                let mut p = file_part("up", Some(f), m, lit("data"));
+                p.type_first = type_first;
+                push("name-vs-type", vec![p.clone()], false);
+                push("name-vs-type", vec![text_part("t", lit("x")), p], false);
             }
         }
     }
@@ -1005,11 +1023,18 @@ fn run_send(form: &FormSpec, write_max: Option<usize>, prev_boundary: &str) -> R
         for (p, d) in form.parts.iter().zip(&datas) {
             if p.file {
                 let mut f = attohttpc::MultipartFile::new(&p.name, d);
+                if p.type_first {
+                    if let Some(m) = &p.mime {
+                        f = f.with_type(m).map_err(|e| format!("with_type({m:?}) failed: {e}"))?;
+                    }
+                }
                 if let Some(n) = &p.filename {
                     f = f.with_filename(n);
                 }
-                if let Some(m) = &p.mime {
-                    f = f.with_type(m).map_err(|e| format!("with_type({m:?}) failed: {e}"))?;
+                if !p.type_first {
+                    if let Some(m) = &p.mime {
+                        f = f.with_type(m).map_err(|e| format!("with_type({m:?}) failed: {e}"))?;
+                    }
                 }
                 b = b.with_file(f);
             } else {
